@@ -73,7 +73,7 @@ func runC15(h *Harness) {
 			maxIvl = ivl
 		}
 		source := Pick(tp, "cdp", "url", "file")
-		lo := LocOpts{Name: fmt.Sprintf("L%d", i+1), URL: fmt.Sprintf("http://crl%d.sim/x.crl", i+1), Issuer: w.A, NVers: 2, Extra: Pick(tp, 2, 40), Width: 8 + i, Base: uint32(i)}
+		lo := LocOpts{Name: fmt.Sprintf("L%d", i+1), URL: fmt.Sprintf("http://crl%d.sim/x.crl", i+1), Issuer: w.A, NVers: 3, Extra: Pick(tp, 2, 40), Width: 8 + i, Base: uint32(i)}
 		// what distinguishes the newer list from the one in force is its content and signature, nothing else need differ
 		switch meta := Pick(tp, "", "", "", "same-times", "no-number-v2", "no-number-v1", "same-number", "same-times+same-number"); meta {
 		case "same-times":
@@ -290,6 +290,32 @@ func runC15(h *Harness) {
 				}
 				prev = t
 			}
+		}
+	}
+	// (c) again, after a restart: the origin has published a third issue; the instance is stopped and provisioned again
+	// on its work_dir (which, on disk, holds the second issue). What a configured CRL is "by the time provisioning
+	// returns" is what its file or URL holds then - not what an earlier process left behind.
+	if len(h.R.Violations) == 0 && tp.Chance(1, 2) {
+		for _, in := range insts {
+			if in == blackHoled || in == hungOnce || in.source == "cdp" {
+				continue
+			}
+			in.loc.State, in.loc.Cur, in.loc.Variant = oGood, 2, ""
+			if in.source == "file" {
+				os.WriteFile(in.file, in.loc.Versions[2].Bytes, 0600)
+			}
+			h.Cleanup(in.n)
+			h.Settle(30 * time.Second)
+			m := h.NewNodeOn(in.n.Name+"r", in.n.Cfg, in.n.WorkDir)
+			err := h.Provision(m)
+			h.R.Checks++
+			if err != nil {
+				h.Violation("C15.c-provision", "provision-failed-after-restart:"+in.source, "instance %s: provisioning again on its work_dir failed although its configured %s CRL is available and acceptable: %v", in.n.Name, in.source, err)
+			} else if p := in.loc.Pattern(m); p != "v3" {
+				h.Violation("C15.c-configured-in-force", "stale-after-restart:"+in.source+":"+fetch, "instance %s: Provision returned after a restart, but the configured %s CRL in force is %s while its source holds v3 since before the restart (fetch mode %q, backend %q)", in.n.Name, in.source, p, fetch, backend)
+			}
+			in.n = m
+			sc["restarted"] = true
 		}
 	}
 	h.R.Sample = map[string]any{"instances": nn, "sources": sc["sources"], "fail_periods": k, "fetch": fetch, "sig": sig}
